@@ -4,7 +4,9 @@
 (4) demo fails with the patch; then keep it as /verif/seeded/<Cxx>-<k>/ (patch.diff, demo.py, meta.json)."""
 import json, os, shutil, subprocess, sys
 pid, k = sys.argv[1], sys.argv[2]
-wt, out = f"/tmp/mut/{pid}/wt", f"/tmp/mut/{pid}/out"
+base = os.environ.get("MUT_BASE", "/tmp/mut")            # second round: MUT_BASE=/tmp/mut2 MUT_OFFSET=2
+off = int(os.environ.get("MUT_OFFSET", "0"))
+wt, out = f"{base}/{pid}/wt", f"{base}/{pid}/out"
 patch, demo = f"{out}/patch{k}.diff", f"{out}/demo{k}.py"
 def sh(cmd, **kw):
     return subprocess.run(cmd, shell=True, stdout=subprocess.PIPE, stderr=subprocess.STDOUT, text=True, **kw)
@@ -16,24 +18,25 @@ ok_clean = r0.returncode == 0
 a = sh(f"git -C {wt} apply {patch}")
 assert a.returncode == 0, a.stdout
 try:
-    b = sh(f"python3 /tmp/mut/baseline.py {wt}")
+    b = sh(f"python3 {base}/baseline.py {wt}")
     ok_base = b.returncode == 0
     for _ in range(3):   # hypothesis tests in the suite are occasionally flaky (also on the clean tree): retries
         if ok_base: break
-        b = sh(f"python3 /tmp/mut/baseline.py {wt}")
+        b = sh(f"python3 {base}/baseline.py {wt}")
         ok_base = b.returncode == 0
     r1 = sh(f"/venv/bin/python {demo}", env=env, cwd=out)
     ok_fail = r1.returncode != 0
 finally:
     sh(f"git -C {wt} checkout -- . && git -C {wt} clean -fdq")
-print(f"{pid}-{k}: demo_clean_pass={ok_clean} suite_pass={ok_base} demo_patched_fail={ok_fail} :: {b.stdout.strip().splitlines()[0] if b.stdout.strip() else ''}")
+sid = f"{pid}-{int(k) + off}"
+print(f"{sid}: demo_clean_pass={ok_clean} suite_pass={ok_base} demo_patched_fail={ok_fail} :: {b.stdout.strip().splitlines()[0] if b.stdout.strip() else ''}")
 if ok_clean and ok_base and ok_fail:
-    d = f"/verif/seeded/{pid}-{k}"
+    d = f"/verif/seeded/{sid}"
     os.makedirs(d, exist_ok=True)
     shutil.copy(patch, f"{d}/patch.diff"); shutil.copy(demo, f"{d}/demo.py")
     notes = open(f"{out}/notes.md").read() if os.path.exists(f"{out}/notes.md") else ""
     open(f"{d}/notes.md", "w").write(notes)
-    meta = {"id": f"{pid}-{k}", "property": pid, "source": "independent sub-agent given only the property text and a scratch worktree",
+    meta = {"id": sid, "property": pid, "source": "independent sub-agent given only the property text and a scratch worktree",
             "base_commit": sh(f"git -C {wt} rev-parse HEAD").stdout.strip(),
             "confirmed": {"demo_passes_on_clean_tree": True, "suite_passes_with_patch": b.stdout.strip().splitlines()[0],
                           "demo_fails_with_patch": (r1.stdout.strip().splitlines() or [""])[-1][:300]},
